@@ -114,7 +114,7 @@ class C07(Check):
         for i, c in enumerate(strat):
             c["seed"] = seed * 1009 + (i % 7)
             yield c
-        for i in range(70 if q else 4000):
+        for i in range(160 if q else 8000):
             length = int(rng.integers(1, 7))
             ops = []
             for _ in range(length):
